@@ -313,6 +313,52 @@ class ModuleInfo:
         return None
 
 
+def find_method_x(mi, clsname, meth, _seen=None):
+    """Resolve a method along the base chain, following imported base classes into their modules.
+    Returns (modinfo, qual, node) or None."""
+    seen = _seen if _seen is not None else set()
+    key = (mi.path, clsname)
+    if key in seen:
+        return None
+    seen.add(key)
+    if clsname in mi.classes:
+        q = f"{clsname}.{meth}"
+        if q in mi.funcs:
+            return mi, q, mi.funcs[q]
+        for b in mi.class_bases(clsname):
+            r = find_method_x(mi, b, meth, seen)
+            if r is not None:
+                return r
+        return None
+    if clsname in mi.imports:
+        tfile, orig = mi.imports[clsname]
+        if orig is not None:
+            return find_method_x(ModuleInfo.load(tfile), orig, meth, seen)
+    return None
+
+
+def class_const_x(mi, clsname, attr, _seen=None):
+    seen = _seen if _seen is not None else set()
+    key = (mi.path, clsname)
+    if key in seen:
+        return None
+    seen.add(key)
+    if clsname in mi.classes:
+        cn = mi.class_const(clsname, attr)
+        if cn is not None:
+            return mi, clsname, cn
+        for b in mi.class_bases(clsname):
+            r = class_const_x(mi, b, attr, seen)
+            if r is not None:
+                return r
+        return None
+    if clsname in mi.imports:
+        tfile, orig = mi.imports[clsname]
+        if orig is not None:
+            return class_const_x(ModuleInfo.load(tfile), orig, attr, seen)
+    return None
+
+
 def func_kind(node):
     for d in node.decorator_list:
         n = d.id if isinstance(d, ast.Name) else (d.attr if isinstance(d, ast.Attribute) else None)
@@ -581,25 +627,22 @@ class Interp:
         home = self.class_modinfo(clsname)
         if home is not None:
             mi, real_cls = home
-            r = mi.find_method(real_cls, name)
+            r = find_method_x(mi, real_cls, name)
             if r is not None:
-                q, node = r
+                mi2, q, node = r
                 kind = func_kind(node)
                 if kind == "property":
-                    return self.call_repo(cx, RepoFunc(mi, q, node, bound=obj, kind="property"), [], {})
+                    return self.call_repo(cx, RepoFunc(mi2, q, node, bound=obj, kind="property"), [], {})
                 if kind == "classmethod":
-                    return RepoFunc(mi, q, node, bound=SClass(clsname), kind=kind)
+                    return RepoFunc(mi2, q, node, bound=SClass(clsname), kind=kind)
                 if kind == "staticmethod":
-                    return RepoFunc(mi, q, node, bound=None, kind=kind)
-                return RepoFunc(mi, q, node, bound=obj, kind="method")
+                    return RepoFunc(mi2, q, node, bound=None, kind=kind)
+                return RepoFunc(mi2, q, node, bound=obj, kind="method")
             # class-level constants
-            todo = [real_cls]
-            while todo:
-                c = todo.pop(0)
-                cn = mi.class_const(c, name)
-                if cn is not None:
-                    return self.eval(cx, Frame(mi, c, Env(None)), cn)
-                todo += mi.class_bases(c)
+            rc = class_const_x(mi, real_cls, name)
+            if rc is not None:
+                mi2, c, cn = rc
+                return self.eval(cx, Frame(mi2, c, Env(None)), cn)
         raise Unsupported(f"attribute {clsname}.{name} (no field, binding, method or constant)")
 
     def lookup_class_attr(self, cx, clsobj, name):
@@ -609,20 +652,17 @@ class Interp:
         home = self.class_modinfo(clsobj.name)
         if home is not None:
             mi, real_cls = home
-            r = mi.find_method(real_cls, name)
+            r = find_method_x(mi, real_cls, name)
             if r is not None:
-                q, node = r
+                mi2, q, node = r
                 kind = func_kind(node)
                 if kind == "classmethod":
-                    return RepoFunc(mi, q, node, bound=clsobj, kind=kind)
-                return RepoFunc(mi, q, node, bound=None, kind="unbound" if kind == "function" else kind)
-            todo = [real_cls]
-            while todo:
-                c = todo.pop(0)
-                cn = mi.class_const(c, name)
-                if cn is not None:
-                    return self.eval(cx, Frame(mi, c, Env(None)), cn)
-                todo += mi.class_bases(c)
+                    return RepoFunc(mi2, q, node, bound=clsobj, kind=kind)
+                return RepoFunc(mi2, q, node, bound=None, kind="unbound" if kind == "function" else kind)
+            rc = class_const_x(mi, real_cls, name)
+            if rc is not None:
+                mi2, c, cn = rc
+                return self.eval(cx, Frame(mi2, c, Env(None)), cn)
         if name == "__name__":
             return clsobj.name
         raise Unsupported(f"class attribute {clsobj.name}.{name}")
@@ -633,10 +673,10 @@ class Interp:
         home = self.class_modinfo(a.cls)
         if home is not None:
             mi, real_cls = home
-            r = mi.find_method(real_cls, "__eq__")
+            r = find_method_x(mi, real_cls, "__eq__")
             if r is not None:
-                q, node = r
-                return self.call_repo(cx, RepoFunc(mi, q, node, bound=a, kind="method"), [b], {})
+                mi2, q, node = r
+                return self.call_repo(cx, RepoFunc(mi2, q, node, bound=a, kind="method"), [b], {})
         if isinstance(a, SRef) and isinstance(b, SRef):
             return a.t == b.t
         return a is b
@@ -645,10 +685,10 @@ class Interp:
         home = self.class_modinfo(a.cls)
         if home is not None:
             mi, real_cls = home
-            r = mi.find_method(real_cls, "__hash__")
+            r = find_method_x(mi, real_cls, "__hash__")
             if r is not None:
-                q, node = r
-                return self.call_repo(cx, RepoFunc(mi, q, node, bound=a, kind="method"), [], {})
+                mi2, q, node = r
+                return self.call_repo(cx, RepoFunc(mi2, q, node, bound=a, kind="method"), [], {})
         raise Unsupported(f"hash of {a.cls}")
 
     # ---- calls -------------------------------------------------------------------------------
@@ -1426,10 +1466,10 @@ class Interp:
         if mb is not None:
             return mb(cx, sp.obj, *args, **kwargs)
         for b in mi.class_bases(cls):
-            r = mi.find_method(b, name)
+            r = find_method_x(mi, b, name)
             if r is not None:
-                q, node = r
-                return self.call_repo(cx, RepoFunc(mi, q, node, bound=sp.obj, kind="method"), args, kwargs)
+                mi2, q, node = r
+                return self.call_repo(cx, RepoFunc(mi2, q, node, bound=sp.obj, kind="method"), args, kwargs)
         raise Unsupported(f"super().{name} not found for {cls}")
 
     def eval_exprs_on_element(self, cx, fr, target, elem_val, exprs, index):
